@@ -590,6 +590,7 @@ func (ru *runner) runCrashCase(cw *crashWorld, c crashCase, st *crashStats, cali
 		}
 		if timedOut {
 			r.Bucket("child_watchdog", 1)
+			return
 		}
 	case "inject":
 		cw.offer(2, nil, "")
@@ -618,7 +619,8 @@ func (ru *runner) runCrashCase(cw *crashWorld, c crashCase, st *crashStats, cali
 			return
 		}
 		exited := make(chan struct{})
-		go func() { cr, _ = sc.wait(childLimit); close(exited) }()
+		var timedOut bool
+		go func() { cr, timedOut = sc.wait(childLimit); close(exited) }()
 		delay := calibFirst + time.Duration(c.Frac*float64(calib-calibFirst))
 		select {
 		case <-time.After(delay):
@@ -626,6 +628,10 @@ func (ru *runner) runCrashCase(cw *crashWorld, c crashCase, st *crashStats, cali
 			<-exited
 			killed = !cr.has("exit")
 		case <-exited:
+		}
+		if timedOut {
+			r.Bucket("child_watchdog", 1)
+			return
 		}
 		if !killed {
 			r.Bucket("random_kill_too_late", 1)
@@ -900,7 +906,14 @@ func (ru *runner) crashPoints() {
 		go func() {
 			defer wg.Done()
 			for c := range ch {
-				ru.runCrashCase(cw, c, st, total, first)
+				func() {
+					defer func() {
+						if p := recover(); p != nil {
+							r.Inconclusive(fmt.Sprintf("panic in the crash-point harness: %v", p))
+						}
+					}()
+					ru.runCrashCase(cw, c, st, total, first)
+				}()
 			}
 		}()
 	}
